@@ -300,6 +300,10 @@ func TestC16(t *testing.T) {
 		dirB("sharded", f, "crafted", 4)
 	}
 	dirB("sharded", 8, "mixed", 120)
+	// fanouts above 256 (never chosen automatically, legal when asked for), with child shards
+	dirB("sharded", 512, "crafted", 4)
+	dirB("sharded", 1024, "crafted", 4)
+	dirB("sharded", 512, "ascii", 700)
 	dirB("auto", 0, "mixed", 30)
 	dirB("auto", 0, "ascii", 0)
 	dirB("auto", 0, "long", 1030)
